@@ -176,7 +176,11 @@ class Ctx:
         return next(self._n)
 
     def fresh_const(self, name, sort=I):
-        return z3.Const(f"{name}!{self.uid()}", sort)
+        c = z3.Const(f"{name}!{self.uid()}", sort)
+        rec = getattr(self, "recording", None)
+        if rec is not None:
+            rec.append(c)
+        return c
 
     def fresh_int(self, name):
         """fresh integer; inside fold bodies a skolem function of the fold indices"""
